@@ -194,3 +194,33 @@ func TestReproValueSentAfterSelfdestruct(t *testing.T) {
 		t.Errorf("DEFECT REPRODUCED: %v wei vanished (5 coins sent to the contract after its SELFDESTRUCT in the same block)", d)
 	}
 }
+
+// TestLeadStaleCallAfterSelfdestructPanicsProposer (a lead for C15/C16, not a
+// C06 matter): a call with contract-style gas sits in the mempool; the
+// contract self-destructs in block N; the mempool's recheck (state check only)
+// keeps the call; the next CreateBlock reaps it and PreRunBlock panics because
+// the gas rule for a code-less destination now rejects it at the validity
+// stage ("PreRunBlock: processBlock fail, should not happen!!!").
+func TestLeadStaleCallAfterSelfdestructPanicsProposer(t *testing.T) {
+	rc := newReproChain(t, 11)
+	gen := rc.gen
+	a, b := gen.Accts[0], gen.Accts[1]
+	create := gen.Create(a, txgen.CSuicide, big.NewInt(0), 18)
+	rc.commit([]*txgen.Item{create}, false)
+	c := create.NewAddr
+	// b's call goes to the proposer's mempool and stays there
+	call := gen.Call(b, txgen.KValueContract, c, txgen.LK(1), nil, 0, false)
+	if err := rc.P.Submit(call.Tx); err != nil {
+		t.Fatalf("mempool refused the call: %v", err)
+	}
+	// block N: only the self-destruct (explicit list), the call stays pooled
+	gen.Reset()
+	kill := gen.Call(a, txgen.KCallSuicide, c, big.NewInt(0), txgen.CallSuicide(a.Addr), 0, false)
+	rc.commit([]*txgen.Item{kill}, false)
+	t.Logf("after the self-destruct the proposer's pool still holds %d good tx", rc.P.Chain.Mempool.GoodTxsSize())
+	// block N+1 from the pool
+	_, _, err := rc.P.Propose(txgen.BlockSpec{Time: rc.now})
+	if err != nil {
+		t.Errorf("LEAD REPRODUCED: proposing from the mempool after the self-destruct: %v", err)
+	}
+}
